@@ -1,14 +1,32 @@
 #!/bin/bash
-# tools/mutrun.sh <patch.diff> <property>... : apply a seeded change to /repo, run the quick checks, undo it.
-# Evidence files written meanwhile are restored from git.
+# tools/mutrun.sh <patch.diff> <property>... : run the quick checks against google/wire WITH a seeded change.
+# The change is applied to a scratch worktree of /repo (never to /repo itself) and the checks are pointed at it
+# through VERIF_REPO; the worktree is reset afterwards. Evidence files written meanwhile are restored from git.
+# VALIDATE=1 additionally runs the pinned test suite on the changed tree first.
 set -u
-patch0="$(readlink -f "$1")"; cd "$(dirname "$0")/.."
-patch="$patch0"; shift
-if [ -n "$(git -C /repo status --porcelain)" ]; then echo "/repo not clean" >&2; exit 2; fi
-git -C /repo apply "$patch" || { echo "patch does not apply" >&2; exit 2; }
-trap 'git -C /repo checkout -- . ; git -C /verif checkout -- evidence 2>/dev/null' EXIT
+patch="$(readlink -f "$1")"; shift
+cd "$(dirname "$0")/.."
+WT=${MUT_WT:-/tmp/verif-mut-wt}
+if [ ! -e "$WT/.git" ]; then git -C /repo worktree prune; git -C /repo worktree add -q --detach "$WT" HEAD || exit 2; fi
+git -C "$WT" checkout -q --detach "$(git -C /repo rev-parse HEAD)" && git -C "$WT" checkout -q -- . && git -C "$WT" clean -qfd
+git -C "$WT" apply "$patch" || { echo "patch does not apply" >&2; exit 2; }
+trap 'git -C "$WT" checkout -q -- . ; git -C "$WT" clean -qfd; git -C /verif checkout -- evidence 2>/dev/null' EXIT
+export GOFLAGS=-mod=mod GOPROXY=off GOSUMDB=off GOTOOLCHAIN=local
+if [ -n "${VALIDATE:-}" ]; then
+  (cd "$WT" && go build ./... ) || { echo "== INVALID: does not build"; exit 3; }
+  fails=$(cd "$WT" && go test -vet=off -count=1 -json ./... 2>/dev/null | python3 -c "
+import sys,json
+f=[]
+for l in sys.stdin:
+    try: e=json.loads(l)
+    except: continue
+    if e.get('Test') and e.get('Action')=='fail': f.append(e['Test'])
+print(' '.join(sorted(f)))")
+  if [ "$fails" != "TestWire TestWire/UnexportedStruct" ]; then echo "== INVALID: pinned suite changed: failing tests: $fails"; exit 3; fi
+  echo "== valid: builds, pinned suite unchanged"
+fi
 for p in "$@"; do
-  out=$(VERIF_TIER=${TIER:-quick} ./check "$p" ${TIER:-quick} 2>&1); code=$?
-  echo "$out" | grep -E "^(VIOLATION|KNOWN-FINDING|violated clause|INFRA|C[0-9]+:)" | cut -c1-400
+  out=$(VERIF_REPO="$WT" ./check "$p" ${TIER:-quick} 2>&1); code=$?
+  echo "$out" | grep -E "^(VIOLATION|KNOWN-FINDING|violated clause|INFRA|C[0-9]+:)" | cut -c1-300
   echo "== $p exit=$code"
 done
